@@ -493,6 +493,10 @@ def do_determinism(binary, prop, tier, seed, n, scratch):
     """Run seeds 0..n-1 in 3 worker layouts x 3 GOMAXPROCS values and compare log hashes."""
     results = []
     for gmp, stride in (("1", 1), ("4", 3), ("16", 7)):
+        if prop in ("C28c", "C19c", "C26c"):
+            # phases under the tape-driven goroutine scheduler run with GOMAXPROCS=1 by construction (its park / release
+            # protocol uses plain memory, see DESIGN.md 4.2): only the worker layout varies
+            gmp = "1"
         os.environ["VERIF_GOMAXPROCS"] = gmp
         procs = []
         for w in range(stride):
